@@ -104,10 +104,11 @@ func selectedIDs(ids []keystore.ExportID) string {
 
 // Run is the C18 monitor.
 func Run(r *ev.Run) {
-	r.Rule = "cases = keystore format {v1 one directory, v1 separate public directory, v2} × source history {fixed: single keys, with poison symmetric key, rotated, rotated poison, rotated+destroyed, odd client ids (a key-kind suffix of the v1 file names inside the id: billing_storage_hmac_node, x_storage_sym_y, next to the plain client billing), odd id with rotated keys; + seeded ones: 1–3 clients (a third of them with one more client with an odd id), 1–3 generations per key kind, destroyed current/rotated keys, poison/log keys} × export selection {--all, --all --private_keys, explicit private ids, explicit public ids} (through KeyBackuper.Export like acra-keys export) × target {empty, holding another client}; plus v2 ExportKeyRings/ImportKeyRings with abort/skip/overwrite delegates on a target holding the same ring; plus per bundle: bit flips of Data (quick: head, tail and a seeded sample; thorough: every bit of bundles ≤ 8 KiB), every bit of the access keys, truncations; plus secret scan of every bundle; plus v1→v2 migration (MigrateV1toV2) of every v1 history; plus the command-level path (quick: 8 of the histories + one large keystore, thorough: all): keys.ExportKeysCommand writes the bundle file and the access-keys file, keys.ImportKeysCommand reads them into an empty keystore of the same format {v1, v1 two directories, v2}, with the two paths REUSED across a chain of exports of different size (all+private, public ids, private ids twice, all, public ids, all+private; then the same paths shared by a v2 and a v1 keystore, which makes the access-keys file shrink and grow) and a fresh pair of paths as control — per step: the files hold the bytes the Exporter returned (no remainder of what they held before), the import succeeds and source and target compare as in the library-level cases. A case is non-trivial when the export produced a bundle and the import (or its rejection) was compared; distinct = (format, history class, selection, target kind, oracle) tuples (command level: the measured history of the two files is the target kind)"
+	r.Rule = "cases = keystore format {v1 one directory, v1 separate public directory, v2} × source history {fixed: single keys, with poison symmetric key, rotated, rotated poison, rotated+destroyed, odd client ids (a key-kind suffix of the v1 file names inside the id: billing_storage_hmac_node, x_storage_sym_y, next to the plain client billing), odd id with rotated keys; + seeded ones: 1–3 clients (a third of them with one more client with an odd id), 1–3 generations per key kind, destroyed current/rotated keys, poison/log keys} × export selection {--all, --all --private_keys, explicit private ids, explicit public ids} (through KeyBackuper.Export like acra-keys export) × target {empty, holding another client}; plus v2 ExportKeyRings/ImportKeyRings with abort/skip/overwrite delegates on a target holding the same ring; plus per bundle: bit flips of Data (quick: head, tail and a seeded sample; thorough: every bit of bundles ≤ 8 KiB), every bit of the access keys, truncations; plus secret scan of every bundle; plus v1→v2 migration (MigrateV1toV2) of every v1 history; plus the command-level path (quick: 8 of the histories + one large keystore, thorough: all): keys.ExportKeysCommand writes the bundle file and the access-keys file, keys.ImportKeysCommand reads them into an empty keystore of the same format {v1, v1 two directories, v2}, with the two paths REUSED across a chain of exports of different size (all+private, public ids, private ids twice, all, public ids, all+private; then the same paths shared by a v2 and a v1 keystore, which makes the access-keys file shrink and grow) and a fresh pair of paths as control — per step: the files hold the bytes the Exporter returned (no remainder of what they held before), the import succeeds and source and target compare as in the library-level cases; plus the REAL acra-backup binary (built once per run from the repository under test with the gothemis stand-in, run as child processes): --action=export of a v1 keystore {one directory, separate public directory} into a file, the printed backup master key parsed from its log output, --action=import into empty directories of a keystore with another master key, target compared with the source like an --all export, the file scanned for key material, one wrong-key and one modified-file import into a target holding another client (must exit non-zero, storage unchanged). A case is non-trivial when the export produced a bundle and the import (or its rejection) was compared; distinct = (format, history class, selection, target kind, oracle) tuples (command level: the measured history of the two files is the target kind)"
 	r.Assumptions = []string{
 		"crypto library replaced by the pure-Go gothemis stand-in (Secure Cell Seal authenticates every bit of its output; HMAC-SHA256 signatures of v2 containers are Acra's own code)",
 		"filesystem / in-memory back ends only (no Redis); the commands are driven from keys.ExportKeysCommand / keys.ImportKeysCommand on (file handling of key_bundle_file / key_bundle_secret included) with the Exporter/Importer objects Execute() builds; flag parsing, configuration files and opening the keystore from the environment master key are not",
+		"acra-backup: the binary is what `go build ./cmd/acra-backup` produces from the tree under test with the themis replace directive of tools/acra-tests.sh; flags, environment variables (ACRA_MASTER_KEY, BACKUP_MASTER_KEY), log output and exit codes are real; Redis / KMS / config files are not used (empty working directory)",
 		"command level: log.Fatal of a command function = the command failed (exit status 1); file modes of the two output files are recorded, not demanded (C18 does not state them)",
 		"'selected keys' of a selection are what the command-line flags promise: --all = every key (v1: files; v2: rings, public data unless --private_keys), ids = the named current keys (v1) / key rings (v2)",
 		"level: exploration — histories/selections are a seeded sample; only the bit-flip sweep of the thorough tier is exhaustive (per bundle ≤ 8 KiB)",
